@@ -169,7 +169,9 @@ fn start_server(sim: &mut turmoil::Sim<'static>, log: Arc<Mutex<Log>>) {
 #[derive(Debug, Clone)]
 pub enum Ev {
     /// `client_form`: 0 = `new` + `set_timeout`, 1 = clone of a configured client, 2 = clone of a clone
-    Send { n: usize, payload_len: usize, reply_len: usize, handler_delay_ms: u32, fresh_channel: bool, client_form: u8 },
+    /// `fail_with`: 0 = the handler replies normally, 1..=5 = it does its work and then replies with an error status of that
+    /// code (service unavailable, internal, invalid payload, connection, timeout) and a message naming the request
+    Send { n: usize, payload_len: usize, reply_len: usize, handler_delay_ms: u32, fresh_channel: bool, client_form: u8, fail_with: u8 },
     Partition,
     Repair,
     Hold,
@@ -198,6 +200,7 @@ struct Done {
     result: Result<(u64, u64, usize), (u8, String)>,
     elapsed: Duration,
     started_during_fault: bool,
+    fail_with: u8,
 }
 
 fn code_num(c: &ErrorCode) -> u8 {
@@ -222,7 +225,7 @@ impl Prop for NetFaults {
     }
 
     fn width(&self) -> usize {
-        25 * 7 + 4
+        25 * 8 + 4
     }
 
     fn shrink_budget(&self) -> usize {
@@ -247,6 +250,7 @@ impl Prop for NetFaults {
                     handler_delay_ms: *src.pick(&[0u32, 0, 0, 3, 100, 700, 2_500, 6_000]),
                     fresh_channel: src.chance(1, 3),
                     client_form: src.weighted(&[2, 2, 1]) as u8,
+                    fail_with: *src.pick(&[0u8, 0, 0, 0, 0, 1, 1, 2, 3, 4, 5]),
                 },
                 1 => Ev::Partition,
                 2 => Ev::Repair,
@@ -273,11 +277,11 @@ impl Prop for NetFaults {
 
     fn rule(&self) -> &'static str {
         "datacake-rpc client and server over hyper/h2 over turmoil's simulated TCP (1 ms tick, 1-5 ms latency, seeded); \
-         client script of 3-25 events: send 1-4 concurrent requests (payload / reply 0 B - 48 KiB, handler delay 0 - 6 s, \
+         client script of 3-25 events: send 1-4 concurrent requests (payload / reply 0 B - 48 KiB, handler delay 0 - 6 s, one send in two with a handler that does its work and then replies with an error status of any of the five codes, \
          shared or fresh channel, client built directly or cloned once / twice from a configured one), partition, repair, hold, release, sleep 1 ms - 5.1 s, join, \
          a caller giving up on a running request (its task is aborted); client timeout T in \
          {0,0.5,2,5 s}; the script ends with release + repair + join; oracle: every request ends as Ok(reply with its own id, \
-         the digest of its own payload and the requested length) or Err(ConnectionError|Timeout) within T + 10 ms of \
+         the digest of its own payload and the requested length), as the error status its own handler replied with (code and message), or Err(ConnectionError|Timeout) within T + 10 ms of \
          simulated time; the handler log holds every id at most once and every id whose client saw Ok, with the digest of \
          the payload that was sent; no host panics; non-trivial = a fault event strictly between a send and its completion"
     }
@@ -305,7 +309,7 @@ fn run_net(case: &NetCase) -> Outcome {
         all.extend([Ev::Release, Ev::Repair, Ev::Join]);
         for ev in all {
             match ev {
-                Ev::Send { n, payload_len, reply_len, handler_delay_ms, fresh_channel, client_form } => {
+                Ev::Send { n, payload_len, reply_len, handler_delay_ms, fresh_channel, client_form, fail_with } => {
                     for _ in 0..n {
                         let id = next_id;
                         next_id += 1;
@@ -325,7 +329,8 @@ fn run_net(case: &NetCase) -> Outcome {
                                 },
                             };
                             let payload: Vec<u8> = (0..payload_len).map(|i| (i as u64).wrapping_mul(id + 7) as u8).collect();
-                            let msg = Ping { id, payload: payload.clone(), reply_len: reply_len as u32, handler_delay_ms, fail_with: 0, text: String::new() };
+                            let text = if fail_with != 0 { format!("refused-{id}") } else { String::new() };
+                            let msg = Ping { id, payload: payload.clone(), reply_len: reply_len as u32, handler_delay_ms, fail_with, text };
                             let started = tokio::time::Instant::now();
                             let res = client.send(&msg).await;
                             let elapsed = started.elapsed();
@@ -333,7 +338,7 @@ fn run_net(case: &NetCase) -> Outcome {
                                 Ok(v) => Ok((v.id, v.digest, v.filler.len())),
                                 Err(s) => Err((code_num(&s.code), s.message)),
                             };
-                            done.lock().push(Done { id, payload_digest: digest(id, &payload), reply_len, result, elapsed, started_during_fault });
+                            done.lock().push(Done { id, payload_digest: digest(id, &payload), reply_len, result, elapsed, started_during_fault, fail_with });
                         })));
                     }
                 },
@@ -408,6 +413,13 @@ fn run_net(case: &NetCase) -> Outcome {
         match &d.result {
             Ok((rid, dg, flen)) => {
                 ensure!(
+                    d.fail_with == 0,
+                    "reply-the-handler-never-computed",
+                    "request {} was answered Ok although its handler replied with an error status (code {})",
+                    d.id,
+                    d.fail_with
+                );
+                ensure!(
                     *rid == d.id && *dg == d.payload_digest && *flen == d.reply_len,
                     "reply-of-another-request",
                     "request {} received reply id={rid} digest={dg:#x} len={flen}; expected digest {:#x} len {}",
@@ -419,6 +431,20 @@ fn run_net(case: &NetCase) -> Outcome {
             },
             Err((code, msg)) => {
                 errors += 1;
+                if d.fail_with != 0 && *code == d.fail_with {
+                    // the reply the handler computed for this very request: its code and its message
+                    if *code != 4 && *code != 5 {
+                        ensure!(
+                            *msg == format!("refused-{}", d.id),
+                            "reply-of-another-request",
+                            "request {} received the error reply {msg:?} (code {code}); its handler replied \"refused-{}\"",
+                            d.id,
+                            d.id
+                        );
+                        ensure!(executions == 1, "reply-without-execution", "request {} got its handler's error reply but the handler log does not contain it", d.id);
+                    }
+                    continue;
+                }
                 ensure!(
                     *code == 4 || *code == 5,
                     "wrong-error-kind",
